@@ -85,7 +85,7 @@ def data_fn(draw, prog, t, opts):
 
 
 def strategy(tier):
-    cfg = {"max_depth": 3 if tier == "quick" else 4, "leaf_validators": True}
+    cfg = {"max_depth": 3 if tier == "quick" else 4, "generics": True, "leaf_validators": True}
     return tdcase.td_cases(cfg, n_data=(5, 10), data_fn=data_fn)
 
 
